@@ -128,10 +128,18 @@ func c04Sparse(t *rapid.T) []kit.Argv {
 		a = append(a, f, "v"+f)
 	}
 	out := []kit.Argv{kit.A("DEL", k), kit.A(a...)}
-	for i := rapid.IntRange(0, 20).Draw(t, "cycles"); i > 0; i-- {
-		out = append(out, kit.A("HSET", k, "churn", "1"), kit.A("HDEL", k, "churn"))
+	for phase := rapid.IntRange(1, 4).Draw(t, "phases"); phase > 0; phase-- {
+		for i := churnCount(t); i > 0; i-- {
+			out = append(out, kit.A("HSET", k, "churn", "1"), kit.A("HDEL", k, "churn"))
+		}
+		out = append(out, c04SparseOps(t, k, fields, name)...)
 	}
-	for i := rapid.IntRange(1, 4).Draw(t, "after"); i > 0; i-- {
+	return out
+}
+
+func c04SparseOps(t *rapid.T, k string, fields []string, name func() string) []kit.Argv {
+	var out []kit.Argv
+	for i := rapid.IntRange(1, 3).Draw(t, "after"); i > 0; i-- {
 		out = append(out, kit.A(pick(t, "sparseop", []string{"HGETALL", k}, []string{"HDEL", k, pick(t, "df", fields...), pick(t, "df2", fields...)}, []string{"HLEN", k},
 			[]string{"HKEYS", k}, []string{"HRANDFIELD", k, "-5", "WITHVALUES"}, []string{"HRANDFIELD", k, "20"}, []string{"HSET", k, name(), "x"}, []string{"HMGET", k, fields[0], "nosuch"},
 			[]string{"COPY", k, "hcopy", "REPLACE"}, []string{"HGETALL", "hcopy"})...))
